@@ -119,6 +119,10 @@ pub enum Via {
     Armor,
     /// full NMEA sentence through `AisParser::parse(line, true)`
     Line,
+    /// 2..5 in-order fragments, each line dressed independently (talker, VDM/VDO, delimiter,
+    /// tag block, channel, leading zeros, non-final fill counts, decode flag of non-final lines),
+    /// inert lines in between: by C05 the result must be the unfragmented decode
+    Group,
 }
 
 /// the buffer `messages::parse` will see for a message transmitted as armored characters
@@ -271,6 +275,63 @@ pub fn run_message_mask(
                 mon::Call::Done(_) => MsgCall::Err,
                 mon::Call::Panic(pi) => MsgCall::Panic(pi),
             };
+            (view, call, mon::replay_history(&hist, ctxname))
+        }
+        Via::Group => {
+            use crate::workloads::common::{dress, inert_between};
+            let (chars, fill, view) = armored_view(bits);
+            let mut r = crate::rng::Rng::new(crate::rng::fnv(&chars) ^ 0x6772_6f75_70);
+            let mut p = mon::Parser::new();
+            let mut hist: Vec<(Vec<u8>, bool)> = Vec::new();
+            if r.bool() {
+                for (l, d) in dirty_lines() {
+                    let _ = p.parse(&l, d);
+                    hist.push((l, d));
+                }
+            }
+            let parts = if chars.len() < 2 { 1 } else { r.usize(2, 5.min(chars.len())) };
+            let mut cuts: Vec<usize> = Vec::new();
+            while cuts.len() + 1 < parts {
+                let c = r.usize(1, chars.len() - 1);
+                if !cuts.contains(&c) {
+                    cuts.push(c);
+                }
+            }
+            cuts.sort();
+            cuts.push(chars.len());
+            let id = *r.pick(&[None, Some(0u8), Some(3), Some(9), Some(17), Some(255)]);
+            let n = parts as u8;
+            let mut prev = 0usize;
+            let mut call = MsgCall::Err;
+            for (j, end) in cuts.iter().enumerate() {
+                let k = (j + 1) as u8;
+                let mut b = crate::nmea_ref::Build::simple(n, k, if n == 1 { None } else { id }, b"A", &chars[prev..*end], if k == n { fill } else { 0 });
+                prev = *end;
+                dress(&mut r, &mut b, k < n);
+                if j > 0 && r.chance(1, 3) {
+                    let (l, d, _) = inert_between(&mut r, id, n, k);
+                    let _ = p.parse(&l, d);
+                    hist.push((l, d));
+                }
+                let d = if k < n { r.bool() } else { true };
+                let line = b.line();
+                hist.push((line.clone(), d));
+                match p.parse(&line, d) {
+                    mon::Call::Done(crate::observe::Outcome::Incomplete(_)) if k < n => {}
+                    mon::Call::Done(crate::observe::Outcome::Complete(s)) if k == n => {
+                        if let (Some(m), Some(dbg)) = (s.message, s.message_debug) {
+                            call = MsgCall::Ok(m, dbg);
+                        }
+                    }
+                    mon::Call::Panic(pi) => {
+                        call = MsgCall::Panic(pi);
+                        break;
+                    }
+                    // a non-final fragment that is not Incomplete, or a final one that is not
+                    // Complete: the message was not delivered
+                    mon::Call::Done(_) => break,
+                }
+            }
             (view, call, mon::replay_history(&hist, ctxname))
         }
     };
